@@ -1,6 +1,10 @@
 // Evidence collection: counters, distinct-state sets, samples, violations; result JSON.
 use crate::util::*;
 use std::collections::{BTreeMap, HashMap, HashSet};
+use std::sync::atomic::{AtomicU64, Ordering};
+
+/// case counter mirrored for the watchdog thread (see main.rs): a call into the crate that never returns stops it
+pub static PROGRESS: AtomicU64 = AtomicU64::new(0);
 
 #[derive(Clone, Copy, PartialEq, Eq, Debug)]
 pub enum Tier { Quick, Thorough }
@@ -74,6 +78,7 @@ impl Ev {
     pub fn case(&mut self) -> bool {
         self.case_no += 1;
         self.evaluations += 1;
+        if self.case_no & 0xFF == 0 || self.ctx.mode != Mode::Native { PROGRESS.store(self.case_no, Ordering::Relaxed); }
         self.trace = self.ctx.only_case == Some(self.case_no);
         self.trace
     }
